@@ -121,6 +121,9 @@ def obligations(tier, seed):
                         obs.append({"name": "equiv0/k=%s/%s/rule=%d/zero-work-auto" % (profiles.KN[k], layout, rule), "harness": "equiv", "cube": {"spec": spec, "w1": 0, "zero_auto": True},
                                     "params": [["w0", 0, 2], ["w2", 0, 2], ["pa0", 0, 5], ["pa1", 0, 8]], "pre": "pa0 < pa1",
                                     "timeout": 900 if thorough else 150, "engine": "zsym"})
+    # the same step listed twice in the list given to simulate()
+    for ob in [o for o in obs if o["name"].startswith("equiv/k=") and "/shared1/rule=0/auto1=0" in o["name"]]:
+        obs.append(dict(ob, name=ob["name"].replace("equiv/", "equiv-duplicate-entry/"), pre="pa0 == pa1"))
     for ob in [o for o in obs if o["name"].startswith("equiv/k=FS/") and "/rule=0/" in o["name"]]:
         obs.append(dict(ob, name=ob["name"].replace("equiv/", "equiv-backward/"), cube=dict(ob["cube"], backward=True)))
     # the automatic task as a predecessor (its SS / FS successor must not start earlier because of an absence step)
